@@ -106,6 +106,7 @@ def run(prog, run):
     r4(prog, run, dec)
     r5(prog, run)
     r6(prog, run)
+    r7(prog, run, dec)
 
 
 def r1(prog, run, enc, dec):
@@ -422,3 +423,42 @@ def r6(prog, run):
             run.violation(rid, 'generateHmac#long-key', f.loc(i),
                           'the pad size %s is negative for keys longer than the 64-byte block: such keys are not hashed first, so the HMAC is wrong (RFC 2104 §2)'
                           % f.fmt(i, inline=False)[:60])
+
+
+def r7(prog, run, dec):
+    rid = run.rule('C14.R7', 'no attribute value is materialised with a declared length that exceeds what is left of the message: every allocation/raw read sized '
+                             'by the attribute length is unreachable when the length does not fit', floor=6)
+    # sinks: buffers sized by a_length and raw reads into them
+    sinks = []
+    for i, n in dec.calls():
+        cn = dec.cname(n)
+        if cn.endswith('::resize') and n.get('args') and any(dec.nodes[j].get('name') == 'a_length' for j in dec.walk(n['args'][0])):
+            sinks.append((i, 'resize(%s)' % dec.fmt(n['args'][0], inline=False)[:20]))
+    for i, n in dec.all_nodes('construct'):
+        if n.get('cls') == 'QByteArray' and n.get('args') and any(dec.nodes[j].get('name') == 'a_length' for j in dec.walk(n['args'][0])):
+            sinks.append((i, 'QByteArray(%s, …)' % dec.fmt(n['args'][0], inline=False)[:20]))
+    if len(sinks) < 6:
+        raise AnalysisBroken('C14.R7: only %d buffers sized by the attribute length found in decode' % len(sinks))
+
+    def custom(f, nid, st):
+        bo = f.binop(nid)
+        if not bo or bo[0] not in ('<', '<=', '>', '>='):
+            return None
+        names_l = {f.nodes[j].get('name') for j in f.walk(bo[1])}
+        names_r = {f.nodes[j].get('name') for j in f.walk(bo[2])}
+        rest = {'length', 'done'}
+        if 'a_length' in names_l and rest & names_r and 'a_length' not in names_r:
+            return (bo[0] in ('>', '>='),)       # "declared length > remaining" is true for the hostile input
+        if 'a_length' in names_r and rest & names_l and 'a_length' not in names_l:
+            return (bo[0] in ('<', '<='),)
+        return None
+    ev = cfgx.Evaluator(dec, {}, custom=custom)
+    res = cfgx.sink_reachability(dec, lambda f, c, st: ev.ev(c, st), [i for i, _ in sinks])
+    for i, what in sinks:
+        run.instance(rid)
+        if res[i] is not None:
+            run.violation(rid, 'decode#value-longer-than-message#L%s' % what, dec.loc(i),
+                          '%s is reachable for an attribute whose declared length exceeds the rest of the message: the value is padded with uninitialised memory '
+                          'and the truncated packet is accepted' % what)
+        else:
+            run.ok(rid, dec.loc(i), '%s unreachable when the attribute does not fit' % what)
